@@ -310,6 +310,21 @@ fn mutations(family: &str, seed: &[u8], rseed: u64, f: &mut dyn FnMut(&[u8])) {
     }
 }
 
+fn has_digit_run(data: &[u8], k: usize) -> bool {
+    let mut run = 0;
+    for b in data {
+        if b.is_ascii_digit() {
+            run += 1;
+            if run >= k {
+                return true;
+            }
+        } else {
+            run = 0;
+        }
+    }
+    false
+}
+
 fn panic_msg(e: Box<dyn std::any::Any + Send>) -> String {
     if let Some(s) = e.downcast_ref::<&str>() {
         s.to_string()
@@ -329,7 +344,15 @@ fn run_batch(line: &str, out: &mut dyn FnMut(String)) {
     let seed = unhex(seedhex);
     let (mut n, mut ok, mut diag, mut panics) = (0u64, 0u64, 0u64, 0u64);
     let mut panic_lines: Vec<String> = Vec::new();
+    let mut skipped = 0u64;
     mutations(family, &seed, rseed, &mut |data: &[u8]| {
+        // Numbers of 8 and more digits are outside the search: the parsers size
+        // their allocations by the counts of the header, so an absurd count is an
+        // allocation failure (process abort), see the `oom` probe / known finding.
+        if has_digit_run(data, 8) {
+            skipped += 1;
+            return;
+        }
         n += 1;
         let r = std::panic::catch_unwind(std::panic::AssertUnwindSafe(|| {
             let p = parse_via(via, fmt, &o, data);
@@ -349,7 +372,7 @@ fn run_batch(line: &str, out: &mut dyn FnMut(String)) {
             }
         }
     });
-    out(format!("{line} -> n={n} ok={ok} diag={diag} panics={panics}"));
+    out(format!("{line} -> n={n} ok={ok} diag={diag} panics={panics} skipped={skipped}"));
     for l in panic_lines {
         out(l);
     }
@@ -822,6 +845,8 @@ fn gen_parse(tier: &str, rng: &mut Rng, em: &mut Emit) {
             em.case("batch", &[format!("B {fmt} 7 file multi{} {} {}", if thorough { 3000 } else { 250 }, hex(s), rng.below(1 << 30))]);
         }
     }
+    // allocation sizes come from the header: one probe, run in a process of its own
+    em.case("oom", &[format!("P dimacs 4 direct {}", hex(b"p sat 100000000000000\n(1)\n"))]);
     // equivalent aag / aig pairs: the pairs of the unit tests + random ones
     let ai = aiger_seeds();
     for (x, y) in [(0usize, 1usize), (2, 3), (5, 6), (7, 8), (9, 10), (11, 12), (15, 16), (19, 20), (21, 22)] {
